@@ -429,7 +429,7 @@ fn class_of(it: &Item) -> String {
 /// The case for a list of (position, item): as top-level text (REPL entry) or as the body of
 /// a module required by a one-line main program (how files run; there the compiler emits the
 /// specialised arithmetic opcodes).  Returns (case, text shown in failure reports).
-fn make_case(items: &[(usize, &Item)], module: bool) -> (Case, String) {
+pub fn make_case(items: &[(usize, &Item)], module: bool) -> (Case, String) {
     if !module {
         let mut src = String::new();
         for (pos, it) in items {
